@@ -1,4 +1,221 @@
-(* C10 — property theorems (being filled in). *)
+(* C10 — property theorems only.  Each is closed by a lemma from Proofs*.v and
+   followed by Print Assumptions. *)
 From Coq Require Import List NArith ZArith Bool.
-From Verif Require Import lib.Wire c10.Model c10.Spec gen.Consts_c10.
+From Verif Require Import lib.Wire c10.Model c10.Spec c10.Proofs_ip c10.Proofs c10.Proofs_mon c10.Proofs_pipe gen.Consts_c10.
 Import ListNotations.
+
+(* ---- textual forms of an address --------------------------------------------- *)
+(* the 16-byte IPv4-mapped form ::ffff:a.b.c.d and the 4-byte form a.b.c.d are
+   filed under the same key by net.IP.String() *)
+Theorem c10_ip_forms_same_key : forall v, (v < 2 ^ 32)%N -> ipkey (IP16 (mapped v)) = ipkey (IP4 v).
+Proof. intros v H. unfold ipkey. rewrite to4_mapped by exact H. reflexivity. Qed.
+Print Assumptions c10_ip_forms_same_key.
+
+(* ... and whatever the rules are, all forms of an address get the same answer
+   from InterceptAddrDial / InterceptAccept (address set and every subnet) *)
+Theorem c10_forms_same_answer : forall m a b, norm_ip a = norm_ip b ->
+  ipkey a = ipkey b /\ ip_refused m a = ip_refused m b /\ (forall s, contains s a = contains s b).
+Proof.
+  intros m a b H. split; [rewrite !ipkey_norm, H; reflexivity|].
+  split; [apply ip_refused_norm, H|]. intros s. apply contains_norm, H.
+Qed.
+Print Assumptions c10_forms_same_answer.
+
+(* net.IPNet.Contains as transcribed (To4 normalisation of both sides, m[12:]
+   of a 16-byte mask over a 4-byte network, byte-wise and): the address is in
+   the subnet iff it has the family of the network after normalisation and
+   agrees with it on the top [len] bits *)
+Theorem c10_subnet_contains_spec : forall s a, wf_snet s -> wf_ip a -> snet_key s <> None ->
+  (contains s a = true <->
+   let '(f, nn) := norm_ip (s_ip s) in
+   let '(fa, x) := norm_ip a in
+   f = fa /\ (x / 2 ^ (fam_bits f - eff_ones s) = nn / 2 ^ (fam_bits f - eff_ones s))%N).
+Proof. exact subnet_contains_spec_l. Qed.
+Print Assumptions c10_subnet_contains_spec.
+
+(* the subnet re-parsed from its datastore key on reload contains exactly the
+   same addresses as the IPNet that was blocked *)
+Theorem c10_reparsed_subnet_same : forall s a, wf_snet s -> wf_ip a -> snet_key s <> None ->
+  contains (parse_cidr (skey_of s)) a = contains s a.
+Proof.
+  intros s a Hs Ha Hk. rewrite parse_cidr_matches by (try assumption; apply skey_of_wf; assumption).
+  symmetry. apply contains_matches_key; assumption.
+Qed.
+Print Assumptions c10_reparsed_subnet_same.
+
+(* ---- persistence ---------------------------------------------------------------- *)
+(* after every history, memory and datastore agree: a gater reopened on the
+   datastore enforces exactly the rules the running one enforces *)
+Theorem c10_memory_agrees_with_datastore : forall h, Forall wf_event h ->
+  let st := run init_state h in
+  forall id, model_has (load_rules (g_ds st)) id <-> model_has (g_mem st) id.
+Proof.
+  intros h Hw st id. destruct (Inv_run h init_state Hw Inv_init) as [Hd Ha].
+  apply (agree_same (g_ds st)); [apply agree_load, Hd|exact Ha].
+Qed.
+Print Assumptions c10_memory_agrees_with_datastore.
+
+(* every history, every crash point: a call that returned (EOp) decides its own
+   rule; a call interrupted after the datastore write (ECrashAfter) is enforced
+   as if it had returned, one interrupted before the write, a failed write and
+   a restart change nothing; no event changes any other rule *)
+Theorem c10_persist_crash_safe : forall h e id, Forall wf_event h -> wf_event e ->
+  let st := run init_state h in
+  (model_has (g_mem (step st e)) id <->
+   match e with
+   | EOp o | ECrashAfter o =>
+       if rid_eqb id (tid (op_rule o)) then op_block o = true else model_has (g_mem st) id
+   | EFail _ | ECrashBefore _ | EReopen => model_has (g_mem st) id
+   end).
+Proof. exact persist_crash_safe_l. Qed.
+Print Assumptions c10_persist_crash_safe.
+
+(* once a call has returned, its rule is enforced (Block) / not enforced
+   (Unblock) after any number of later calls on other rules, failed writes,
+   process stops at either point and restarts *)
+Theorem c10_persist_returned : forall h1 o h2,
+  Forall wf_event h1 -> wf_rule (op_rule o) -> Forall wf_event h2 ->
+  forallb (fun e => negb (touches (tid (op_rule o)) e)) h2 = true ->
+  (model_has (g_mem (run init_state (h1 ++ EOp o :: h2))) (tid (op_rule o)) <-> op_block o = true).
+Proof. exact persist_returned. Qed.
+Print Assumptions c10_persist_returned.
+
+(* ---- blocked never admitted ------------------------------------------------------ *)
+(* for a stack that has every gate, in every reachable state:
+   a blocked peer is refused before any transport dial outbound and right
+   after the handshake inbound; a blocked address — in every textual form —
+   and every address of a blocked subnet is never handed to a transport and is
+   closed at accept inbound; nothing is admitted outbound without a transport
+   dial *)
+Theorem c10_blocked_never_admitted : forall sites h,
+  (forall g, has_gate sites g = true) -> Forall wf_event h ->
+  let m := g_mem (run init_state h) in
+  (forall p, model_has m (IdPeer p) ->
+     (forall addrs, outbound sites m p addrs = [PvPeerDial p false]) /\
+     (forall oa, intercept_accept m oa = true ->
+        inbound sites m p oa = [PvAccept true; PvHandshake; PvSecured true p false; PvClosed]) /\
+     (forall oa, ~ In PvAdmitted (inbound sites m p oa))) /\
+  (forall a b, model_has m (tid (RAddr a)) -> norm_ip b = norm_ip a ->
+     (forall p addrs j, nth_error addrs j = Some (Some b) -> ~ In (PvTransportDial j) (outbound sites m p addrs)) /\
+     (forall p, inbound sites m p (Some b) = [PvAccept false; PvClosed])) /\
+  (forall s b, wf_snet s -> snet_key s <> None -> wf_ip b -> model_has m (tid (RSubnet s)) -> contains s b = true ->
+     (forall p addrs j, nth_error addrs j = Some (Some b) -> ~ In (PvTransportDial j) (outbound sites m p addrs)) /\
+     (forall p, inbound sites m p (Some b) = [PvAccept false; PvClosed])) /\
+  (forall p addrs, In PvAdmitted (outbound sites m p addrs) ->
+     exists k, In (PvTransportDial k) (outbound sites m p addrs)).
+Proof. exact blocked_never_admitted_l. Qed.
+Print Assumptions c10_blocked_never_admitted.
+
+(* regenerated obligation: the Intercept* call sites found in the source this
+   run.  The swarm (family 0) has InterceptPeerDial, InterceptAddrDial and
+   InterceptUpgraded; each transport family — upgrader (TCP, WebSocket) 1,
+   QUIC 2, WebTransport 3, WebRTC 4 — has InterceptAccept and
+   InterceptSecured for both directions.  Deleting a call site breaks this. *)
+Theorem c10_gate_sites_complete :
+  forall fam, In fam [1; 2; 3; 4]%Z -> fully_gated c10_gate_sites fam = true.
+Proof.
+  intros fam H.
+  assert (E : forallb (fully_gated c10_gate_sites) [1; 2; 3; 4]%Z = true) by (vm_compute; reflexivity).
+  rewrite forallb_forall in E. apply E, H.
+Qed.
+Print Assumptions c10_gate_sites_complete.
+
+(* hence the pipeline theorem applies to the gates each transport family
+   actually has in the source *)
+Theorem c10_every_transport_gated : forall fam g, In fam [1; 2; 3; 4]%Z ->
+  has_gate (stack c10_gate_sites fam) g = true.
+Proof. intros fam g H. apply fully_gated_has, c10_gate_sites_complete, H. Qed.
+Print Assumptions c10_every_transport_gated.
+
+(* ---- the monitor that judges the implementation accepts every model trace -------- *)
+(* under the code's reading of a subnet rule (the text IPNet.String() prints
+   identifies it): every history of calls, failed writes, process stops at
+   both points and restarts, every probe set *)
+Theorem c10_monitor_accepts_model_text : forall prs h,
+  Forall wf_probe prs -> Forall wf_event h ->
+  monitor_trace true prs [] 0 (model_trace prs init_state h) = [].
+Proof. intros prs h Hp Hw. apply monitor_text_model; [assumption|assumption|apply Inv_init|apply R_nil]. Qed.
+Print Assumptions c10_monitor_accepts_model_text.
+
+(* under the property's reading (a subnet is the set of its addresses) the
+   same holds when every subnet in the history is given in canonical form
+   (host bits zero, as ParseCIDR returns it) *)
+Theorem c10_monitor_accepts_model_partial : forall prs h,
+  Forall wf_probe prs -> Forall wf_event h -> Forall canonical_event h ->
+  monitor_trace false prs [] 0 (model_trace prs init_state h) = [].
+Proof. exact monitor_model_canonical. Qed.
+Print Assumptions c10_monitor_accepts_model_partial.
+
+Theorem c10_canonical_is_host_bits_zero : forall s, wf_snet s -> snet_key s <> None ->
+  (canonical_rule (RSubnet s) <->
+   let '(f, nn) := norm_ip (s_ip s) in clear_host f nn (eff_ones s) = nn).
+Proof. exact canonical_snet. Qed.
+Print Assumptions c10_canonical_is_host_bits_zero.
+
+(* without that hypothesis the full statement is FALSE of the code:
+   BlockSubnet(IPNet{10.1.2.3, /24}); UnblockSubnet(IPNet{10.1.2.0, /24}) — the
+   second call returns nil, and 10.1.2.9 is still refused (the rule maps and
+   the datastore are keyed by the text "10.1.2.3/24").  Finding, see
+   known_findings/C10.json. *)
+Definition c10_witness : list event :=
+  [EOp (Block (RSubnet (mkSnet (IP4 167838211) false 24)));
+   EOp (Unblock (RSubnet (mkSnet (IP4 167838208) false 24)))].
+
+Theorem c10_monitor_accepts_model_refuted :
+  exists prs h, Forall wf_probe prs /\ Forall wf_event h /\
+    monitor_trace false prs [] 0 (model_trace prs init_state h) <> [].
+Proof.
+  exists [PAddrDial (Some (IP4 167838217))], c10_witness. split; [|split].
+  - repeat constructor.
+  - repeat constructor; try (vm_compute; reflexivity); vm_compute; discriminate.
+  - vm_compute. discriminate.
+Qed.
+Print Assumptions c10_monitor_accepts_model_refuted.
+
+(* ---- non-vacuity ------------------------------------------------------------------- *)
+(* a reachable state that enforces a peer, an address and a subnet rule after a
+   process stop between the datastore write and the memory update *)
+Example rules_survive_crash :
+  let h := [EOp (Block (RPeer 7)); ECrashAfter (Block (RAddr (IP4 16909060)));
+            EOp (Block (RSubnet (mkSnet (IP16 (mapped 167772160)) true 104))); EReopen] in
+  let m := g_mem (run init_state h) in
+  intercept_peer_dial m 7 = false /\
+  intercept_addr_dial m (Some (IP16 (mapped 16909060))) = false /\    (* ::ffff:1.2.3.4 *)
+  intercept_accept m (Some (IP4 184549375)) = false /\                (* 10.255.255.255, last of 10/8 *)
+  intercept_accept m (Some (IP4 184549376)) = true /\                 (* 11.0.0.0 *)
+  intercept_addr_dial m None = true.
+Proof. vm_compute. repeat split. Qed.
+
+(* subnet edges: /0, /32, /128, IPv4-mapped forms, IPv4 never inside an IPv6 subnet *)
+Example subnet_edges :
+  let all4 := mkSnet (IP4 0) false 0 in
+  let all6 := mkSnet (IP16 0) true 0 in
+  let host4 := mkSnet (IP4 16909060) false 32 in
+  let host6 := mkSnet (IP16 1) true 128 in
+  contains all4 (IP4 4294967295) = true /\ contains all4 (IP16 (mapped 0)) = true /\
+  contains all4 (IP16 1) = false /\
+  contains all6 (IP16 1) = true /\ contains all6 (IP4 16909060) = false /\
+  contains all6 (IP16 (mapped 16909060)) = false /\
+  contains host4 (IP16 (mapped 16909060)) = true /\ contains host4 (IP4 16909061) = false /\
+  contains host4 (IP4 16909059) = false /\
+  contains host6 (IP16 1) = true /\ contains host6 (IP16 0) = false /\ contains host6 (IP16 2) = false.
+Proof. vm_compute. repeat split. Qed.
+
+(* the monitor rejects a trace in which a blocked peer is let through *)
+Example monitor_rejects_admitted_peer :
+  monitor_trace false [PPeerDial 1] [] 0
+    [(EOp (Block (RPeer 1)), mkObs 0 [true] [1%Z] [] [])] <> [].
+Proof. vm_compute. discriminate. Qed.
+
+(* ... and one in which a rule is lost by a restart *)
+Example monitor_rejects_lost_rule :
+  monitor_trace false [PAccept (Some (IP4 16909060))] [] 0
+    [(EOp (Block (RAddr (IP4 16909060))), mkObs 0 [false] [] [IP16 (mapped 16909060)] []);
+     (EReopen, mkObs 0 [true] [] [] [])] <> [].
+Proof. vm_compute. discriminate. Qed.
+
+(* the end-to-end monitor rejects a transport dial to a blocked peer *)
+Example monitor_rejects_dial_to_blocked_peer :
+  monitor_e2e (mkE2E false true [EOp (Block (RPeer 1))] 1 [Some (IP4 2130706433)]
+                     [PvPeerDial 1 true; PvTransportDial 0] 0 0 []) <> [].
+Proof. vm_compute. discriminate. Qed.
